@@ -212,6 +212,16 @@ def r4(R, repo):
       idx = [astu.src(a) for a in loops[0].iter.args].index('inner_rng_counters')
       ok = astu.src(loops[0].target.elts[idx]) == v and astu.src(loops[0].target.elts[[astu.src(a) for a in loops[0].iter.args].index('scopes')]) == 'scope'
   apps = [x for x in astu.func_calls(pp) if astu.src(x.func) == 'inner_rng_counters.append']
+  comp = [d_[0] for d_ in flow.defs(pp, 'inner_rng_counters') if isinstance(d_[0], ast.ListComp)]
+  if not apps and len(comp) == 1:
+    # built by a comprehension over the scopes: its element is what each inner scope gets
+    kind_, src_, wit_ = evid.copy_depth(pp, comp[0].elt)
+    if kind_ in (evid.SHALLOW, evid.DEEP) and src_ is not None and astu.src(src_).endswith('.rng_counters'):
+      R.fail(key_of(sf, 'inner scope shares the outer scope\'s rng counter dict'), (pp, comp[0]), '`%s` hands every inner scope a *copy* of the outer scope\'s rng counters: draws made inside the lifted transform no longer advance the caller\'s stream, so the next draw outside (or a second call of the lifted layer) repeats a key' % astu.short(comp[0]))
+      return
+    if kind_ == evid.ALIAS and astu.src(comp[0].elt).endswith('.rng_counters') and ok:
+      R.ok(key_of(sf, 'inner scope shares the outer scope\'s rng counter dict'), (pp, comp[0]))
+      return
   ok = ok and len(apps) == 1
   if ok:
     a = apps[0].args[0]
